@@ -261,9 +261,6 @@ func DumpInvariants(d *index.VerifDump, sp space.Space) (string, string) {
 				if l > w.Level {
 					return "link-above-level", fmt.Sprintf("%s -> %s at level %d, target level %d", id, ln.To, l, w.Level)
 				}
-				if ln.To == id {
-					return "self-link", fmt.Sprintf("%s links to itself", id)
-				}
 			}
 		}
 	}
